@@ -27,6 +27,7 @@ complementary one runs at all) - contained, but not removed.
 from __future__ import annotations
 
 import ast
+import itertools
 import math
 import types
 
@@ -591,10 +592,10 @@ def _observe(ctx, repo) -> None:
         except Exception as exc:  # noqa: BLE001 - raised by a representative's own operator, i.e. by an operator the tracer called
             ctx.fail("C01.observe", ecp, f"{tag}: executed_compare_predicate lets {type(exc).__name__}: {exc} escape into the module under test", stmt=tag)
     # one-shot iterators
-    for kind in ("IN", "NOT_IN"):
-        itr = iter([1, 2, 3])
+    for kind, (label, mkit) in itertools.product(("IN", "NOT_IN"), (("list iterator", lambda: iter([1, 2, 3])), ("generator", lambda: (v for v in [1, 2, 3])), ("map object", lambda: map(int, "123")))):
+        itr = mkit()
         it = _tracer_interp(repo)
-        tag = f"[compare {kind}] one-shot iterator as container"
+        tag = f"[compare {kind}] one-shot iterator as container ({label})"
         try:
             it.run_function(ecp, [peval.Obj("tracer"), 2, itr, 0, T(f"PynguinCompare.{kind}")], {}, tmod)
             left = list(itr)
